@@ -239,3 +239,65 @@ PROPS["C03"] = {
     "assumptions": ["deep-nesting expectations for depth > 500 are the closed form (Ok with the fragment count / Err) that "
                     "the model confirms at depths <= 500; the list-based model is not run at 10^6"],
 }
+
+
+# ----------------------------------------------------------------------------- manifest texts
+UNCLAIMED = {}
+COMMON_NOTE = ("Trusted: Coq kernel; ExtrOcamlBasic extraction; OCaml glue; Rust harness; the hand-written model is tied to the "
+               "code only by the correspondence run (complete on the enumerated finite sub-domains, sampled beyond). ")
+
+def _m(pid, text, note, technique, category="proof"):
+    PROPS[pid]["manifest"] = {"text": text, "note": COMMON_NOTE + note, "technique": technique, "category": category}
+    PROPS[pid]["level"] = category
+
+_m("C20", "KindSet model (masks, operators, both iterators, renderings) proved to refine finite-set semantics for all 64 sets, all "
+          "operand pairs and next/next_back scripts of ANY length (induction); tied to the code by running both on the complete "
+          "finite domain (exhaustive).",
+   "u8 modelled as N restricted to <64 (closure proved). No axioms.",
+   "Coq proof (finite-domain vm_compute lifted by forallb_forall + induction on iterator scripts) + exhaustive model/implementation correspondence")
+_m("C03", "Proved for every stream (any characters, stream errors, all four option records): the parser model never reaches a panic "
+          "site, terminates within 2n+4 loop iterations, returns Ok or Err, the explicit-stack machine equals the recursive-descent "
+          "reading of the same leaf functions, the bytes handed to the unsafe NumberBuf::new_unchecked are a valid ASCII JSON number, "
+          "every reserved fragment is closed, and traversal is the iterative pre-order. Machine stack use and drop glue are runtime "
+          "behaviour: observed by executing the implementation in 64 KiB-stack child processes at depths up to 10^6 / 2*10^6 (partial: "
+          "sampled depths). One genuine finding is recorded (error after a deeply nested closed container aborts in drop glue).",
+   "No axioms. The deep-nesting part is testing in support of the theorems, not a proof about the machine stack.",
+   "Coq proof (machine invariant, fuel bound, simulation machine = recursive descent) + correspondence on outcome classes + small-stack execution at sampled depths")
+_m("C04", "Proved for every option record and every well-formed value (numbers satisfy the RFC 8259 number grammar, strings/keys are "
+          "scalar sequences): the printer model never panics, its output equals the reference layout, that text is derivable in the "
+          "strict annotated grammar with the original value as denotation, and the parser model accepts it returning exactly that "
+          "value (composition of printer = layout, layout denotes, grammar completeness of the reference parser, machine = reference).",
+   "No axioms.",
+   "Coq proof (nested induction on values; composition with the parser completeness theorem) + correspondence on printed-then-reparsed values")
+_m("C06", "Proved for EVERY finite history of operations: no operation of the indexed object model panics, the index invariant holds "
+          "(every bucket holds exactly the ascending positions of its key; ghost hashed-under keys agree with the entries), entries and "
+          "every operation result equal those of the plain-list specification, and every key query is a linear scan. The correspondence "
+          "run compares entries, results, every query AND the real hash-index buckets (read through the hook) after each history.",
+   "hashbrown RawTable trusted as a finite map; Vec::sort_by trusted as a stable sort. No axioms.",
+   "Coq proof (invariant + refinement to a list multimap, induction over operation lists) + correspondence over breadth-first distinct states and long random histories with bucket dumps")
+_m("C08", "Proved for every value: compact printing (and to_string/Display/String::from, which delegate to it) equals the reference "
+          "minimal serializer ser_min, and the string escaping is character-by-character RFC 8785 escaping. Correspondence compares the "
+          "four real entry points with ser_min on every scalar value as string and key (thorough) and generated values.",
+   "No axioms.", "Coq proof (printer = layout; layout under the compact preset = ser_min) + correspondence, exhaustive over all scalar values in thorough runs")
+_m("C11", "Proved: the traversal loop is the pre-order (exact fuel); get_fragment returns the i-th pre-order fragment or the remaining "
+          "distance; on any code map shaped like the value's volumes the mapped iterators and keyed mapped lookups yield exactly the "
+          "pre-order offsets of items, entries, keys and values (and sub-maps are shaped again); conversions never panic and report the "
+          "FIRST offending fragment in pre-order with its kind. Correspondence checks every array, object, key and index of parsed "
+          "documents, including that each yielded offset's span re-parses to that element.",
+   "No axioms. That parsed code maps are shaped is the C05 theorem; keyed lookups use C06's queries_scan.",
+   "Coq proof (induction on values over the navigation model) + correspondence on every container/key/index of parsed documents")
+_m("C13", "Proved for EVERY option record and EVERY value: the printer model's output equals the reference layout written from the "
+          "documentation; the size pre-pass and the emission run in lock-step (sizes[*index] never out of bounds); a Width w is exactly "
+          "the number of characters printed and Expanded means a line break was printed; no line break without limits (for values whose "
+          "numbers contain no raw line feed, which every valid number satisfies; the unrestricted statement is refuted).",
+   "Widths are unbounded N (usize overflow needs a 2^64-character line). No axioms.",
+   "Coq proof (central lock-step lemma by nested induction) + byte-for-byte correspondence over value x option-record families with limits straddling the actual widths")
+_m("C14", "Proved for all values: cmp is reflexive, antisymmetric, transitive; cmp = Equal iff equal iff ==; partial_cmp = Some cmp; "
+          "objects compare as their entry lists; UTF-8 byte order is code-point order; the Hash write stream is a function of the value "
+          "and determines it. That the implementation's Object impls look at entries only is observed on pairs of histories reaching "
+          "the same entries with different index states; the exact write streams are compared with the model's.",
+   "No axioms.", "Coq proof (generic lexicographic-order lemmas + nested induction) + correspondence on triples, near copies, history pairs and hash write streams")
+_m("C15", "Proved for all pairs of values: unordered_eq = true iff PermEq (equality up to a permutation of object entries at any depth, "
+          "one-to-one so multiplicities count); PermEq is an equivalence implied by equality; the result is symmetric.",
+   "Lookups inside unordered_eq are modelled as scans (justified by C06). No axioms.",
+   "Coq proof (greedy matching = removal-based matching; soundness by bijection, completeness by an exchange argument) + correspondence on all small object pairs, permutations, shuffles and mutations")
